@@ -67,12 +67,14 @@ func crudRegistries(c *crudOpts, crudFile string) string {
 }
 
 type binRecord struct {
-	Kind  string `json:"kind"`
-	Type  string `json:"type"`
-	JSON  string `json:"json"`
-	Shape string `json:"shape"`
-	OK    bool   `json:"ok"`
-	Msg   string `json:"msg"`
+	Kind  string          `json:"kind"`
+	Type  string          `json:"type"`
+	JSON  string          `json:"json"`
+	Shape string          `json:"shape"`
+	OK    bool            `json:"ok"`
+	Msg   string          `json:"msg"`
+	Val   json.RawMessage `json:"val"`
+	Back  json.RawMessage `json:"back"`
 }
 
 type binResult struct {
